@@ -105,6 +105,7 @@ func (c *RedialPacketConn) exchange(conn net.PacketConn) {
 			}
 			p := make([]byte, n)
 			copy(p, buf[:])
+			vhook("ex.read", conn, p)
 			select {
 			case c.recvQueue <- p:
 			default: // OK to drop packets.
@@ -121,6 +122,7 @@ func (c *RedialPacketConn) exchange(conn net.PacketConn) {
 			case <-readErrCh:
 				return
 			case p := <-c.sendQueue:
+				vhook("ex.write", conn, p)
 				_, err := conn.WriteTo(p, c.remoteAddr)
 				if err != nil {
 					writeErrCh <- err
